@@ -50,9 +50,10 @@ Section Conv.
   Definition arg_clsname (a : kwval) : string :=
     match a with KInst i => icls i | KText _ => "str" | KNat _ => "<native>" | KNone => "NoneType" end.
   Definition kw_has (kw : list (string * kwval)) (k : string) : bool := mem k (map fst kw).
-  (** kwargs.get(m) is not None *)
+  (** kwargs.get(m) not in (None, ""): a group member given as the empty string is absent (it converts to None), since the repair
+      "fix: an empty string does not count as a member of a mutex group" *)
   Definition kw_notnone (kw : list (string * kwval)) (k : string) : bool :=
-    match assoc k kw with None | Some KNone => false | Some _ => true end.
+    match assoc k kw with None | Some KNone | Some (KText []) => false | Some _ => true end.
 
   Definition last_n (n : nat) (s : string) : string :=
     let l := String.length s in substring (l - n) n s.
